@@ -132,9 +132,26 @@ class MiniInterp:
                 val = self.eval_expr(st.value, env)
             except NotConstant:
                 val = Opaque(norm(st.value))
+            # containers the fragment creates itself (`d = {}`, `xs = []`) may be filled by it: remembered by identity
+            if isinstance(st.value, (ast.Dict, ast.List, ast.Set)) or (
+                    isinstance(st.value, ast.Call) and norm(st.value.func) in ("dict", "list", "set", "OrderedDict", "collections.OrderedDict")
+                    and not st.value.args and not st.value.keywords):
+                if not isinstance(val, Opaque):
+                    self._fresh = getattr(self, "_fresh", set())
+                    self._fresh.add(id(val))
+                    self._fresh_keep = getattr(self, "_fresh_keep", [])
+                    self._fresh_keep.append(val)
             for t in st.targets:
                 if isinstance(t, ast.Name):
                     env[t.id] = val
+                elif isinstance(t, ast.Subscript) and isinstance(t.value, ast.Name) and t.value.id in env and \
+                        id(env[t.value.id]) in getattr(self, "_fresh", ()) and not isinstance(val, Opaque) and not isinstance(t.slice, ast.Slice):
+                    try:
+                        keyv = self.eval_expr(t.slice, env)
+                    except NotConstant:
+                        out.effects.append(Effect(st, norm(st)))
+                        continue
+                    env[t.value.id][keyv] = val
                 elif isinstance(t, ast.Tuple) and all(isinstance(e, ast.Name) for e in t.elts) \
                         and not isinstance(val, Opaque):
                     vals = list(val)
@@ -184,6 +201,50 @@ class MiniInterp:
         if isinstance(st, (ast.Break, ast.Continue)):
             out.flow = "break" if isinstance(st, ast.Break) else "continue"
             return True
+        if isinstance(st, ast.For):
+            # a loop over a *concrete* finite sequence (the representatives' own data: an attribute mapping, a constant table)
+            it = st.iter
+            try:
+                if isinstance(it, ast.Call) and isinstance(it.func, ast.Attribute) and it.func.attr in ("items", "keys", "values") and not it.args:
+                    base = self.eval_expr(it.func.value, env)
+                    if not isinstance(base, dict):
+                        raise NotConstant("items() of a non-mapping")
+                    seq = list(getattr(base, it.func.attr)())
+                else:
+                    seq = self.eval_expr(it, env)
+                    if isinstance(seq, Opaque) or not isinstance(seq, (list, tuple, dict, set, frozenset, str)):
+                        raise NotConstant("not a concrete sequence")
+                    seq = list(seq)
+            except NotConstant as e:
+                raise AnalysisError("loop over `%s` is not over a concrete sequence (%s)" % (norm(it)[:80], e))
+            if len(seq) > 200:
+                raise AnalysisError("loop over `%s` is too long to unroll" % norm(it)[:80])
+
+            def bind(t, v):
+                if isinstance(t, ast.Name):
+                    env[t.id] = v
+                elif isinstance(t, (ast.Tuple, ast.List)):
+                    vs = list(v)
+                    if len(vs) != len(t.elts):
+                        raise AnalysisError("cannot unpack in `for %s`" % norm(t)[:60])
+                    for tt, vv in zip(t.elts, vs):
+                        bind(tt, vv)
+                else:
+                    raise AnalysisError("loop target `%s` outside the partition fragment" % norm(t)[:60])
+            broke = False
+            for item in seq:
+                bind(st.target, item)
+                left = self._block(st.body, out)
+                if out.returned or out.raised:
+                    return True
+                if left and out.flow == "break":
+                    out.flow = None
+                    broke = True
+                    break
+                out.flow = None
+            if not broke and st.orelse:
+                return self._block(st.orelse, out)
+            return False
         if isinstance(st, ast.Delete):
             out.effects.append(Effect(st, norm(st)))
             return False
